@@ -787,6 +787,12 @@ func (P *Program) litKey(l Lit) string {
 // struct values (`for _, annot := range list`, `x := *p`) is transparent: the field is described as a field of
 // those values.
 func (P *Program) descBase(v ssa.Value, deep bool) string {
+	// x[i].f read in place (no copy of the element): the base is the element itself
+	if ia, ok := v.(*ssa.IndexAddr); ok {
+		if _, isStruct := deref(ia.Type()).Underlying().(*types.Struct); isStruct {
+			return "elem" + idxTagB(ia.Index, ia.X) + "(" + P.desc(ia.X, deep) + ")"
+		}
+	}
 	if cell := P.cellOf(v); cell != nil && cell.Comment != "complit" {
 		if _, isStruct := deref(cell.Type()).Underlying().(*types.Struct); isStruct {
 			vals, _, escaped := P.CellStores(cell)
